@@ -563,6 +563,13 @@ def clip_native_to_wngrid(native_grid, wngrid):
     wn_max = max_wngrid + wnwidths.max()
 
     native_filter = (native_grid >= wn_min) & (native_grid <= wn_max)
+    # Keep one more native point on either side: the outermost point of the
+    # clipped grid gets a different bin width than it has in the full grid, so
+    # it must lie clear of every bin of ``wngrid``
+    kept = np.where(native_filter)[0]
+    if kept.shape[0] > 0:
+        native_filter[max(kept[0]-1, 0)] = True
+        native_filter[min(kept[-1]+1, native_grid.shape[0]-1)] = True
     return native_grid[native_filter]
 
 
